@@ -44,6 +44,28 @@ func (Labeler) After(x *Exec, op *Op, res *Res) {
 			}
 		}
 	}
+	// over-withdrawal budget: one unit (plus the fixed-point tolerance) per successful undelegation
+	// since the asset's shares were last reset
+	if x.UndelCount == nil {
+		x.UndelCount = map[string]int{}
+		x.OverdrawnSeen = map[string]bool{}
+	}
+	if op.K == KUndelegate && res.OK {
+		x.UndelCount[op.Denom]++
+	}
+	for _, dn := range post.AssetOrder {
+		a := post.Assets[dn]
+		if a.TotalTokens.IsZero() && a.TotalValidatorShares.IsZero() {
+			x.UndelCount[dn] = 0
+		}
+		if a.TotalTokens.IsNegative() && !x.OverdrawnSeen[dn] {
+			budget := new(big.Rat).Mul(big.NewRat(int64(x.UndelCount[dn]), 1), new(big.Rat).Sub(assetTol(pre, post, dn), big.NewRat(1, 1)))
+			if new(big.Rat).Neg(intRat(a.TotalTokens)).Cmp(budget) <= 0 {
+				x.OverdrawnSeen[dn] = true
+				x.Label("staked-total-negative-by-rounded-up-withdrawals")
+			}
+		}
+	}
 	for i := range post.Vals {
 		if pre.Vals[i].Status != 0 && post.Vals[i].Status == 0 {
 			x.Label("validator-removed")
